@@ -87,11 +87,17 @@ _LOG_METHODS = {"debug", "info", "warning", "error", "exception", "critical", "l
 _LOG_NAMES = {"_LOGGER", "logger", "_logger", "LOGGER"}
 
 
+LOGGING_IS_THE_SUBJECT = {"geckolib.utils.shell"}      # the snapshot writer *is* its logging calls
+
+
 class _T(ast.NodeTransformer):
+    def __init__(self, stub_logging=True):
+        self.stub_logging = stub_logging
+
     def visit_Call(self, node):
         f = node.func
         # logging calls get empty bodies (their arguments are not even evaluated)
-        if (isinstance(f, ast.Attribute) and f.attr in _LOG_METHODS and isinstance(f.value, ast.Name)
+        if (self.stub_logging and isinstance(f, ast.Attribute) and f.attr in _LOG_METHODS and isinstance(f.value, ast.Name)
                 and f.value.id in _LOG_NAMES):
             return ast.copy_location(ast.Constant(None), node)
         self.generic_visit(node)
@@ -147,6 +153,8 @@ class sx_int(metaclass=_IntMeta):
 
     def __new__(cls, x=0, base=None):
         if base is not None:
+            if isinstance(x, SymBytesBase):
+                return int(x.concrete(), base)      # forks until the text is concrete
             if is_sym(x):
                 raise Inconclusive("int(x, base) on symbolic text")
             return int(x, base)
@@ -417,7 +425,7 @@ class _Loader(importlib.machinery.SourceFileLoader):
         with open(path, "rb") as f:
             src = f.read()
         tree = ast.parse(src, filename=path)
-        tree = _T().visit(tree)
+        tree = _T(fullname not in LOGGING_IS_THE_SUBJECT).visit(tree)
         ast.fix_missing_locations(tree)
         return compile(tree, path, "exec", dont_inherit=True)
 
